@@ -56,7 +56,8 @@ GENERIC_SUFFIX = ["", "!", "\n", ".x86_64",
 STRUCTURES = [("composeinfo-chain", "doc:ComposeInfo.loads"), ("composeinfo-chain-dup", "doc:ComposeInfo.loads"),
               ("composeinfo-wide", "doc:ComposeInfo.loads"), ("composeinfo-wide-dup", "doc:ComposeInfo.loads"),
               ("treeinfo-chain", "doc:TreeInfo.loads"), ("treeinfo-chain-dup", "doc:TreeInfo.loads"),
-              ("images-same-image-repeated", "doc:Images.loads")]
+              ("images-same-image-repeated", "doc:Images.loads"),
+              ("legacy-treeinfo-sections-shared-by-id", "doc:TreeInfo.loads"), ("legacy-treeinfo-addons-shared-by-id", "doc:TreeInfo.loads")]
 SENTINELS = [("is_valid_release_short", "", "a", "!"), ("is_valid_release_short", "", "a-", "!"), ("is_valid_release_version", "", "1", "x"),
              ("is_valid_release_version", "", "1.", "x"), ("is_valid_release_type", "", "a", "!"), ("is_valid_release_type", "a", "1", "_"),
              ("create_release_id:short", "", "a", "!"), ("create_release_id:version", "", "1", "!"), ("parse_release_id", "", "a-", ""),
